@@ -6,7 +6,7 @@ _REGISTRY = {}
 
 
 def get(pid):
-    from . import cal, misc, ival, reg, rules, locks  # noqa: F401  (registration side effects)
+    from . import cal, misc, ival, reg, rules, locks, zones  # noqa: F401  (registration side effects)
     return _REGISTRY.get(pid)
 
 
@@ -16,8 +16,11 @@ def register(spec):
 
 
 class Stream:
-    def __init__(self, name, requests, compare=None, weight=None, refine=None):
+    def __init__(self, name, requests, compare=None, weight=None, refine=None, groups=None):
         self.name, self.requests, self.compare, self.weight, self.refine = name, requests, compare, weight, refine
+        self.groups = groups
+        if groups is not None:
+            self.requests = [r for g in groups for r in g]
 
 
 BASE_TRUST = [
